@@ -84,8 +84,9 @@ static const CO_IF_NVM_DRV nvmDrv = {nvm_init, nvm_read, nvm_write};
 // ------------------------------------------------------------------ user object type
 extern "C" {
 static uint32_t user_size(CO_OBJ *, CO_NODE *, uint32_t) { return 4; }
-static CO_ERR user_read(CO_OBJ *obj, CO_NODE *node, void *, uint32_t) { COObjTypeUserSDOAbort(obj, node, (uint32_t)obj->Data); return CO_ERR_TYPE_RD; }
-static CO_ERR user_write(CO_OBJ *obj, CO_NODE *node, void *, uint32_t) { COObjTypeUserSDOAbort(obj, node, (uint32_t)obj->Data); return CO_ERR_TYPE_WR; }
+// user type: Data >= 0x01000000 = refuse with this application abort code; smaller = refuse by returning this CO_ERR value, no application code
+static CO_ERR user_read(CO_OBJ *obj, CO_NODE *node, void *, uint32_t) { uint32_t v = (uint32_t)obj->Data; if (v >> 24) { COObjTypeUserSDOAbort(obj, node, v); return CO_ERR_TYPE_RD; } return CO_ERR_TYPE_RD; }
+static CO_ERR user_write(CO_OBJ *obj, CO_NODE *node, void *, uint32_t) { uint32_t v = (uint32_t)obj->Data; if (v >> 24) { COObjTypeUserSDOAbort(obj, node, v); return CO_ERR_TYPE_WR; } return (CO_ERR)v; }
 const CO_OBJ_TYPE COTVerifUser = {user_size, 0, user_read, user_write, 0};
 }
 
